@@ -100,7 +100,8 @@ def stepLine (st : St) (line : String) : St × String :=
         versions := (splitComma ((kv? ws "vers").getD "-")).filterMap String.toNat? }
     let keysOk := (kv? ws "keysok") != some "0"
     ({ st with cfg := cfg, info := { st.info with keysOk := keysOk } }, "ok")
-  | "cfgsrv" :: _ =>
+  -- `updsrv`: the shared synchronisation state changes while the server lives on; for the model it is the same
+  | "cfgsrv" :: _ | "updsrv" :: _ =>
     match kvNat? ws "stratum", kvBytes? ws "refid", kvNat? ws "leap", kvInt? ws "prec", kvInt? ws "rdelay",
           kvBytes? ws "bloom" with
     | some stratum, some refid, some leap, some prec, some rdelay, some bloom =>
